@@ -8,6 +8,7 @@ Line-protocol driver for C10.  First word selects the sub-model:
                                     → `none` | `some:<hex>` per input, or `panic-new`
   m <F|P> <pats> <path-hex>…        ResourceDef::new / ::prefix; per path `is/find/capture`
   b <F|P> <pats> <val-hex>…         resource_path_from_iter, then capture on the built path
+  bm <F|P> <pats> <name>=<val>…     resource_path_from_map
   k <path-hex> <F|P>:<pat-hex>…     successive capture_match_info on one Path
     <pats> = `S <pat-hex>` (Patterns::Single) | `L<n> <pat-hex>×n` (Patterns::List)
 (hex: lower-case, `-` = empty; strings are UTF-8; a path/pattern word may also be written
@@ -122,6 +123,22 @@ def runBuild (flag : String) (ws : List String) : String :=
       (if ok then "1" else "0") ++ ":" ++ hexOfChars out ++ " " ++
         showOutcome (rd.captureMatchInfo { path := out })
 
+/-- `bm <F|P> <patterns> <name>=<val>…` : resource_path_from_map (later duplicates win) -/
+def runBuildMap (flag : String) (ws : List String) : String :=
+  withDef flag ws fun rd kvs =>
+    let pairs := kvs.map fun kv =>
+      match kv.splitOn "=" with
+      | [k, v] =>
+        match strOfHex k, strOfHex v with
+        | some k, some v => some (k, v)
+        | _, _ => none
+      | _ => none
+    match allSome pairs with
+    | none => "bad-case"
+    | some ps =>
+      let (out, ok) := buildSegsMap rd.segments ps.reverse
+      (if ok then "1" else "0") ++ ":" ++ hexOfChars out
+
 /-- `k <path> <F|P>:<pat>…` : successive capture_match_info calls on one `Path` (skip chaining) -/
 def runChain (ws : List String) : String :=
   match ws with
@@ -154,6 +171,7 @@ def run (line : String) : String :=
   | "q" :: prot :: inputs => runQuoter prot inputs
   | "m" :: flag :: rest => runMatch flag rest
   | "b" :: flag :: rest => runBuild flag rest
+  | "bm" :: flag :: rest => runBuildMap flag rest
   | "k" :: rest => runChain rest
   | _ => "bad-case"
 
